@@ -34,9 +34,12 @@ MANIFEST = {
             "DictObjectStore and LocalFileObjectStore, status + Location + canonical payload + store snapshot compared after every request.",
     "note": "Lean model + tie cover shells, submodels, concept descriptions, nested elements (Property/Collection) by idShort path, qualifiers, submodel "
             "refs, paging, level=core; covered by the reference-repository oracle only (implementation side, no Lean model): file attachments of "
-            "File/Blob elements (upload / download / delete, colliding file names), submodel references carrying a referredSemanticId, the "
-            "shell/submodel superpath (PUT / DELETE / redirect through a shell's reference); NOT covered: SubmodelElementList children, "
-            "asset-information, $reference routes, idShort/assetIds/semanticId filters; bodies abstracted to decode outcomes; werkzeug "
+            "File/Blob elements (upload / download / delete, colliding file names, re-upload of deleted content), submodel references carrying a "
+            "referredSemanticId, the shell/submodel superpath (PUT / DELETE / redirect through a shell's reference), and - as a reference repository of "
+            "plain JSON documents - submodels over all 14 element classes with typed values (Property, Range, Qualifier, Extension; replacements within "
+            "families of Python-equal forms), lists of every element/value type and their replacement by lists of another type, every write read back at "
+            "every level in JSON and XML; NOT covered: asset-information, $reference routes, idShort/assetIds/semanticId filters, paths into list "
+            "children (the path converter rejects numeric segments); bodies abstracted to decode outcomes in the Lean model; werkzeug "
             "routing/conversion trusted and sampled",
     "technique": "Lean 4 proof: invariant + forward simulation over all request histories; ast-extracted tables; differential correspondence via werkzeug.test.Client; independent dict reference repository as oracle",
 }
@@ -383,6 +386,9 @@ MALFORMED = {"json": [b"{", b"{}", b"5", b"null", b'{"modelType":"Submodel"}', b
 # nested deeper than the parsers follow (json: the interpreter's recursion limit; lxml: 256 levels)
 TOO_DEEP = {"json": [b"[" * 100000, b'{"a":' * 50000 + b"1" + b"}" * 50000, b"[" * 5000 + b"]" * 5000],
             "xml": [b"<a>" * 300 + b"</a>" * 300, b'<aas:submodel xmlns:aas="https://admin-shell.io/aas/3/0">' + b"<aas:a>" * 2000 + b"</aas:a>" * 2000 + b"</aas:submodel>"]}
+# (round 4) ... and one whose elements the constructors would recurse into if the parser let it through: collections within collections
+_O, _C = b"<aas:submodelElementCollection><aas:idShort>c1</aas:idShort><aas:value>", b"</aas:value></aas:submodelElementCollection>"
+TOO_DEEP["xml"] += [_O.replace(b">", b' xmlns:aas="https://admin-shell.io/aas/3/0">', 1) + _O * (n - 1) + _C * n for n in (300, 1200)]
 QVALS = [None, "0", "1", "2", "3", "10", "-1", "x", "", "1_0", " 2", "+1", "٣", "99999999999999999999", "9223372036854775807"]
 
 
@@ -482,7 +488,8 @@ class Server:
         if self.dir:
             shutil.rmtree(self.dir, ignore_errors=True)
 
-    def send(self, R: Dict[str, Any]) -> Any:
+    def send(self, R: Dict[str, Any], raw: bool = False) -> Any:
+        """raw: the response as it is - ["raw", status, parsed Location, Content-Type, bytes] - instead of its abstraction"""
         headers = {}
         if ACCEPTS[R["acc"]][0] is not None:
             headers["Accept"] = ACCEPTS[R["acc"]][0]
@@ -511,6 +518,8 @@ class Server:
             import traceback
             self.last_exc = (type(e).__name__, str(e)[:300], [f.name for f in traceback.extract_tb(e.__traceback__)])
             return ["crash", exc_name(e)]
+        if raw:
+            return ["raw", resp.status_code, parse_location(resp.headers.get("Location")), resp.headers.get("Content-Type"), resp.get_data()]
         return canon_response(R["m"], resp)
 
     def snapshot(self) -> List[Any]:
@@ -983,7 +992,7 @@ class OracleRun:
         self.fb = file_backed
         self.clashed: set = set()       # submodels that received a PUT changing the class of a nested element
         self.uploads: Dict[str, Any] = {}    # "submodel id|path" of a File -> (fileName, content, content type) of the upload it holds
-        self.released: List[Any] = []        # uploads whose File had its attachment deleted
+        self.victims: set = set()            # Files that held the very upload (fileName, content, content type) ANOTHER File held when that one's was deleted
         self.stats: Dict[str, int] = {}
         self.cur_op: Optional[str] = None
 
@@ -1136,8 +1145,7 @@ class OracleRun:
                 return self.fail("http:GET:attachment:none-not-404", f"GET {where}, which holds no content, answered {out[1]}", out, 404)
             return None
         if out[1] != 200:
-            up = self.uploads.get(f"{i}|{'.'.join(path)}")
-            if out[1] == 404 and want["k"] == "file" and up is not None and up in self.released:
+            if out[1] == 404 and want["k"] == "file" and f"{i}|{'.'.join(path)}" in self.victims:
                 return self.fail("http:attachment:shared-upload-deleted", f"GET {where} answered 404 after the attachment of ANOTHER File, uploaded with "
                                  "the same fileName, content and content type, was deleted", out, 200)
             return self.fail("http:GET:attachment:stored-not-200", f"GET {where} answered {out[1]}", out, 200)
@@ -1183,6 +1191,7 @@ class OracleRun:
         pre = f"{i}|" + (".".join(path) if path else "")
         for k in [k for k in self.uploads if k == pre or k.startswith(pre + ".") or not path and k.startswith(pre)]:
             del self.uploads[k]
+            self.victims.discard(k)
 
     # -- semantic operations
     def op(self, op: List[Any]) -> Optional[C.Failing]:
@@ -1355,7 +1364,9 @@ class OracleRun:
                     return self.fail("http:att-del:not-204", f"DELETE attachment answered {out[1]}", out, 204)
                 target["val"] = None
                 if key in self.uploads:
-                    self.released.append(self.uploads.pop(key))
+                    up = self.uploads.pop(key)
+                    self.victims |= {k2 for k2, u2 in self.uploads.items() if u2 == up}
+                self.victims.discard(key)
                 return None
             if target["val"] is not None:
                 if out[1] != 409:
@@ -1369,6 +1380,7 @@ class OracleRun:
                 return self.fail("http:att-put:not-204", f"upload to the File {'.'.join(path)} of {i!r} answered {out[1]}", out, 204)
             target["val"] = content
             self.uploads[key] = [fname, content, mime]
+            self.victims.discard(key)
             return None
         if k in ("ref-add", "ref-del", "sp-get", "sp-delete", "sp-put"):
             i, smid = op[1], op[2]
@@ -1553,9 +1565,29 @@ def gen_semantic_ops(rng: random.Random, n: int, allow_known: bool) -> List[List
                     ops.append(["elem-create", i, [], e])
                     o["root"]["ch"].append(copy.deepcopy(e))
                     continue
+            allf = [(j, p) for j in known("sm") for p, e in all_paths(made[j]["root"]) if e["k"] == "file"]
+            if allf and rng.random() < 0.3:
+                # the second life of a content: upload -> delete -> upload of the identical bytes (or of other bytes), to the same File or
+                # to another one, under the same fileName or another one; the sweep downloads every attachment afterwards
+                j, p = rng.choice(allf)
+                content = rng.choice(FILE_BYTES)
+                fname = rng.choice(FILE_NAMES)
+                enc = lambda b: base64.b64encode(b).decode("ascii")
+                if rng.random() < 0.5:
+                    ops.append(["att-del", j, p])        # whatever it holds now
+                ops.append(["att-put", j, p, fname, enc(content), sm_elem(j, p)["cty"]])
+                for _ in range(rng.choice([1, 1, 2])):
+                    ops.append(["att-del", j, p])
+                    j2, p2 = (j, p) if rng.random() < 0.6 else rng.choice(allf)
+                    if rng.random() < 0.35:
+                        content = rng.choice(FILE_BYTES)
+                    if (j2, p2) != (j, p) and rng.random() < 0.5:
+                        ops.append(["att-del", j2, p2])
+                    ops.append(["att-put", j2, p2, fname if rng.random() < 0.6 else rng.choice(FILE_NAMES), enc(content), sm_elem(j2, p2)["cty"]])
+                    j, p = j2, p2
+                continue
             if rng.random() < 0.35:
                 # several Files of the repository (this submodel's and the others') receive uploads, mostly under one fileName
-                allf = [(j, p) for j in known("sm") for p, e in all_paths(made[j]["root"]) if e["k"] == "file"]
                 fname = rng.choice(FILE_NAMES)
                 chosen = rng.sample(allf, min(len(allf), rng.randint(2, 3)))
                 content = rng.choice(FILE_BYTES)
@@ -1664,7 +1696,727 @@ def oracle(ctx: C.Ctx, cov: C.Coverage) -> List[C.Failing]:
             sigs.add(f.sig)
             f.case["ops"] = C.ddmin(f.case["ops"], lambda o, f=f, fb=fb, hi=hi: (lambda g: g is not None and g.sig == f.sig)(run_semantic(o, fb, (ctx.seed, hi))), 60)
             out.append(f)
+    # documents over the whole metamodel (round 4)
+    cov.extra["oracle_documents"] = ("histories of create / replace / delete of submodels and of nested elements written as plain JSON documents over all 14 element "
+                                     "classes (typed values of Property, Range, Qualifier, Extension drawn from families of Python-equal forms; lists of 10 element "
+                                     "types x value types x semanticIdListElement with children), bodies in JSON and in XML (hand-written correspondence); replacements: a "
+                                     "typed attribute moved within its family (same Python value, other valueType / lexical form / zone), a list replaced by a list "
+                                     "of another type (itself or inside the replaced ancestor), a changed member, a fresh document of the class; after every "
+                                     "accepted write every element by its path, the element listing, the submodel and the listing of submodels are read in JSON "
+                                     "AND in XML and compared with the reference document (also the 201 body)")
+    for hi in range(ctx.budget(120, 900)):
+        ops = gen_doc_ops(rng, rng.randint(5, 10))
+        fb = hi % 5 == 4
+        f = run_docs(ops, fb, (ctx.seed, hi), "some", stats=cov.histogram)
+        cov.hit("oracle-document-histories")
+        if f is not None:
+            f = run_docs(f.case["ops"], fb, (ctx.seed, hi)) or f
+        if f is not None and f.sig not in sigs:
+            sigs.add(f.sig)
+            f.case["ops"] = C.ddmin(f.case["ops"], lambda o, f=f, fb=fb, hi=hi: (lambda g: g is not None and g.sig == f.sig)(run_docs(o, fb, (ctx.seed, hi))), 60)
+            out.append(f)
     return out
+
+
+# ------------------------------------------------------------------------------------------- oracle 2: documents over the whole metamodel
+# (round 4) The reference repository of this part holds plain JSON documents - submodels whose elements range over all 14 concrete
+# element classes, with typed values (Property, Range, Qualifier, Extension) - and demands of every read, at every level (the
+# submodel, its element listing, every nested element by its idShort path, the listing of all submodels) and in BOTH response
+# formats, the document the history put there.  Request bodies (JSON as the document is, XML through `xml_of_doc`) and the reading of
+# XML responses (`doc_of_xml`) are written by hand from the regular correspondence between the two formats, not through the SDK.
+
+# Families of (valueType, lexical form) whose *Python* values compare equal although they are different contents:
+# 1 == True == 1.0 == Decimal("1.00"), equal instants written in different zones, dates that differ in the zone only, equal bytes,
+# str subclasses.  A replacement that moves a typed attribute within its family must be read back like any other replacement.
+# (All forms are ones the types' canonical writing returns verbatim.)
+EQ_FAMILIES = [
+    [("xs:int", "1"), ("xs:boolean", "true"), ("xs:double", "1.0"), ("xs:float", "1.0"), ("xs:decimal", "1"), ("xs:decimal", "1.0"), ("xs:decimal", "1.00"),
+     ("xs:integer", "1"), ("xs:long", "1"), ("xs:unsignedByte", "1"), ("xs:positiveInteger", "1")],
+    [("xs:int", "0"), ("xs:boolean", "false"), ("xs:double", "0.0"), ("xs:double", "-0.0"), ("xs:decimal", "0"), ("xs:decimal", "0.0"), ("xs:decimal", "0.00"),
+     ("xs:nonNegativeInteger", "0"), ("xs:nonPositiveInteger", "0"), ("xs:short", "0"), ("xs:float", "0.0")],
+    [("xs:int", "5"), ("xs:double", "5.0"), ("xs:decimal", "5.0"), ("xs:decimal", "5.00"), ("xs:byte", "5"), ("xs:float", "5.0"), ("xs:unsignedLong", "5"),
+     ("xs:decimal", "5")],
+    [("xs:dateTime", "2020-01-01T12:00:00+00:00"), ("xs:dateTime", "2020-01-01T13:00:00+01:00"), ("xs:dateTime", "2020-01-01T06:30:00-05:30")],
+    [("xs:time", "12:00:00+00:00"), ("xs:time", "13:00:00+01:00"), ("xs:time", "06:30:00-05:30")],
+    [("xs:date", "2020-01-01"), ("xs:date", "2020-01-01Z"), ("xs:date", "2020-01-01+01:00"), ("xs:date", "2020-01-01-05:00")],
+    [("xs:hexBinary", "01ff"), ("xs:base64Binary", "Af8=")],
+    [("xs:string", "abc"), ("xs:anyURI", "abc")],
+    [("xs:string", "1"), ("xs:anyURI", "1"), ("xs:string", "1.0"), ("xs:string", "true")],
+    [("xs:gYear", "2020"), ("xs:gYear", "2020+01:00"), ("xs:gYearMonth", "2020-01"), ("xs:gMonthDay", "--01-01"), ("xs:gDay", "---01"), ("xs:gMonth", "--01"),
+     ("xs:duration", "P1D"), ("xs:dateTime", "2020-01-01T12:00:00")],
+]
+_FAMILY_OF = {tv: k for k, fam in enumerate(EQ_FAMILIES) for tv in fam}
+DOC_CLASSES = ["Property", "MultiLanguageProperty", "Range", "Blob", "File", "ReferenceElement", "RelationshipElement", "AnnotatedRelationshipElement",
+               "Entity", "BasicEventElement", "Operation", "Capability", "SubmodelElementCollection", "SubmodelElementList"]
+DATA_CLASSES = ["Property", "MultiLanguageProperty", "Range", "Blob", "File", "ReferenceElement"]
+# the member that holds the children addressed by idShort path below an element of the class
+CHILD_MEMBER = {"Submodel": "submodelElements", "SubmodelElementCollection": "value", "Entity": "statements", "AnnotatedRelationshipElement": "annotations"}
+LIST_TYPES = ["Property", "Property", "Range", "MultiLanguageProperty", "SubmodelElementCollection", "ReferenceElement", "File", "Blob", "Capability", "Entity"]
+
+
+def typed(rng: random.Random, fam: Optional[int] = None) -> Tuple[str, str]:
+    return rng.choice(EQ_FAMILIES[rng.randrange(len(EQ_FAMILIES)) if fam is None else fam])
+
+
+def typed_range(rng: random.Random, fam: Optional[int] = None, other_than: Optional[str] = None) -> Tuple[str, str, str]:
+    """(valueType, min, max): two forms of one family that have the same valueType"""
+    while True:
+        f = EQ_FAMILIES[rng.randrange(len(EQ_FAMILIES)) if fam is None else fam]
+        vt, lo = rng.choice(f)
+        if vt == other_than and len({t for t, _ in f}) > 1:
+            continue
+        return vt, lo, rng.choice([x for t, x in f if t == vt])
+
+
+def doc_ref(rng: random.Random, model_ref: Optional[bool] = None, depth: int = 1) -> Dict[str, Any]:
+    if model_ref is None:
+        model_ref = rng.random() < 0.5
+    if model_ref:
+        keys = [{"type": "Submodel", "value": rng.choice(IDS)}]
+        if rng.random() < 0.4:
+            keys += [{"type": "SubmodelElementCollection", "value": rng.choice(IDSHORTS)}, {"type": "Property", "value": rng.choice(IDSHORTS)}][: rng.randint(1, 2)]
+        r: Dict[str, Any] = {"type": "ModelReference", "keys": keys}
+    else:
+        r = {"type": "ExternalReference", "keys": [{"type": "GlobalReference", "value": rng.choice(["urn:x", "https://sem/2"])}]}
+    if depth > 0 and rng.random() < 0.25:
+        r["referredSemanticId"] = doc_ref(rng, False, depth - 1)
+    return r
+
+
+def doc_common(rng: random.Random, d: Dict[str, Any], sem: bool = True) -> Dict[str, Any]:
+    if sem and rng.random() < 0.3:
+        d["semanticId"] = doc_ref(rng)
+    if "semanticId" in d and rng.random() < 0.35:      # AASd-118: only beside a semanticId
+        d["supplementalSemanticIds"] = [doc_ref(rng) for _ in range(rng.randint(1, 2))]
+    if rng.random() < 0.35:
+        qs = []
+        for t in QTYPES:
+            if rng.random() < 0.6:
+                vt, v = typed(rng)
+                qs.append({"type": t, "valueType": vt, "value": v, "kind": rng.choice(["ConceptQualifier", "ValueQualifier", "TemplateQualifier"]),
+                           **({"valueId": doc_ref(rng, False, 0)} if rng.random() < 0.2 else {})})
+        if qs:
+            d["qualifiers"] = qs
+    if rng.random() < 0.4:
+        d["description"] = [{"language": "en", "text": f"t{rng.randrange(4)}"}] + ([{"language": "de", "text": "ä"}] if rng.random() < 0.3 else [])
+    if rng.random() < 0.15:
+        d["displayName"] = [{"language": "de", "text": "n"}]
+    if rng.random() < 0.15:
+        d["category"] = rng.choice(["PARAMETER", "x"])
+    if rng.random() < 0.3:
+        es = []
+        for n in ("e1", "e2"):
+            if rng.random() < 0.6:
+                vt, v = typed(rng)
+                es.append({"name": n, "valueType": vt, "value": v, **({"refersTo": [doc_ref(rng, True, 0)]} if rng.random() < 0.3 else {})})
+        if es:
+            d["extensions"] = es
+    return d
+
+
+def doc_list(rng: random.Random, ids: Optional[str], other_than: Optional[Dict[str, Any]] = None) -> Dict[str, Any]:
+    """a SubmodelElementList: element class x value type x semanticIdListElement, with children that fit; `other_than`: a list whose
+    type attributes the new one must not share (the replacement of a list by a list of another type)"""
+    while True:
+        t = rng.choice(LIST_TYPES)
+        d: Dict[str, Any] = {"modelType": "SubmodelElementList", "orderRelevant": rng.random() < 0.7, "typeValueListElement": t}
+        vt = None
+        if t in ("Property", "Range"):
+            vt = typed(rng)[0]
+            d["valueTypeListElement"] = vt
+        sem = doc_ref(rng, False, 0) if rng.random() < 0.4 else None
+        if sem is not None:
+            d["semanticIdListElement"] = sem
+        if other_than is None or any(d.get(k) != other_than.get(k) for k in ("typeValueListElement", "valueTypeListElement", "semanticIdListElement")):
+            break
+    if ids is not None:
+        d["idShort"] = ids
+    kids = []
+    for _ in range(rng.choice([0, 1, 1, 2, 3])):
+        c = doc_elem(rng, None, 0, t, value_type=vt, plain=True)
+        if sem is not None and rng.random() < 0.7:
+            c["semanticId"] = copy.deepcopy(sem)
+        kids.append(c)
+    if kids:
+        d["value"] = kids
+    return doc_common(rng, d)
+
+
+def doc_elem(rng: random.Random, ids: Optional[str], depth: int = 2, cls: Optional[str] = None, value_type: Optional[str] = None,
+             plain: bool = False) -> Dict[str, Any]:
+    """a submodel element document; `value_type`: the valueType a Property / Range must have (children of a list); `plain`: no
+    semanticId (children of a list with a semanticIdListElement)"""
+    cls = cls or rng.choice(DOC_CLASSES + ["Property", "Range", "SubmodelElementList", "SubmodelElementList", "AnnotatedRelationshipElement", "SubmodelElementCollection"])
+    if cls == "SubmodelElementList":
+        return doc_list(rng, ids)
+    d: Dict[str, Any] = {"modelType": cls}
+    if ids is not None:
+        d["idShort"] = ids
+    kids = lambda: [doc_elem(rng, n, depth - 1) for n in rng.sample(IDSHORTS, rng.randint(0, 2))] if depth > 0 else []
+    data = lambda n: doc_elem(rng, n, 0, rng.choice(DATA_CLASSES))
+    def of_type(vt):
+        forms = [tv for fam in EQ_FAMILIES for tv in fam if tv[0] == vt]
+        return rng.choice(forms)
+    if cls == "Property":
+        vt, v = of_type(value_type) if value_type else typed(rng)
+        d.update(valueType=vt)
+        if rng.random() < 0.9:
+            d["value"] = v
+        if rng.random() < 0.15:
+            d["valueId"] = doc_ref(rng, False, 0)
+    elif cls == "MultiLanguageProperty":
+        if rng.random() < 0.8:
+            d["value"] = [{"language": "en", "text": rng.choice(["x", "y"])}] + ([{"language": "fr", "text": "é"}] if rng.random() < 0.3 else [])
+    elif cls == "Range":
+        if value_type:
+            vt, lo = of_type(value_type)
+            hi = of_type(value_type)[1]
+        else:
+            vt, lo, hi = typed_range(rng)
+        d.update(valueType=vt)
+        if rng.random() < 0.9:
+            d["min"] = lo
+        if rng.random() < 0.9:
+            d["max"] = hi
+    elif cls == "Blob":
+        d.update(contentType=rng.choice(ATT_CTYPES))
+        if rng.random() < 0.7:
+            d["value"] = base64.b64encode(rng.choice(FILE_BYTES)).decode("ascii")
+    elif cls == "File":
+        d.update(contentType=rng.choice(ATT_CTYPES))
+        if rng.random() < 0.4:
+            d["value"] = rng.choice(["http://x/y.txt", "file.txt", "/f/never-uploaded.bin"])
+    elif cls == "ReferenceElement":
+        if rng.random() < 0.8:
+            d["value"] = doc_ref(rng)
+    elif cls in ("RelationshipElement", "AnnotatedRelationshipElement"):
+        d.update(first=doc_ref(rng), second=doc_ref(rng))
+        if cls == "AnnotatedRelationshipElement" and rng.random() < 0.75:
+            d["annotations"] = [data(n) for n in rng.sample(IDSHORTS, rng.randint(1, 2))]
+    elif cls == "Entity":
+        if rng.random() < 0.5:
+            d.update(entityType="SelfManagedEntity", globalAssetId="urn:asset")
+        else:
+            d.update(entityType="CoManagedEntity")
+        if rng.random() < 0.6:
+            d["statements"] = kids()
+    elif cls == "BasicEventElement":
+        d.update(observed=doc_ref(rng, True, 0), direction=rng.choice(["input", "output"]), state=rng.choice(["on", "off"]))
+        if rng.random() < 0.3:
+            d["messageTopic"] = "topic"
+    elif cls == "Operation":
+        names = rng.sample(IDSHORTS, rng.randint(0, 3))
+        for n in names:
+            d.setdefault(rng.choice(["inputVariables", "outputVariables", "inoutputVariables"]), []).append({"value": data(n)})
+    elif cls == "SubmodelElementCollection":
+        d["value"] = kids()
+    d = doc_common(rng, d, sem=not plain)
+    return {k: v for k, v in d.items() if v != []}
+
+
+def doc_sm(rng: random.Random, i: str) -> Dict[str, Any]:
+    d: Dict[str, Any] = {"modelType": "Submodel", "id": i, "submodelElements": [doc_elem(rng, n) for n in rng.sample(IDSHORTS, rng.randint(1, 3))]}
+    if rng.random() < 0.5:
+        d["idShort"] = rng.choice(["x1", "sh"])
+    if rng.random() < 0.3:
+        d["kind"] = rng.choice(["Instance", "Template"])
+    if rng.random() < 0.2:
+        d["administration"] = {"version": "1", "revision": "0"}
+    return doc_common(rng, d)
+
+
+def typed_sites(doc: Any) -> List[Dict[str, Any]]:
+    """the dicts of a document that hold a typed value: Property, Range, Qualifier, Extension (valueType + value | min/max)"""
+    out = []
+    if isinstance(doc, dict):
+        if "valueType" in doc and any(k in doc for k in ("value", "min", "max")):
+            out.append(doc)
+        for v in doc.values():
+            out += typed_sites(v)
+    elif isinstance(doc, list):
+        for v in doc:
+            out += typed_sites(v)
+    return out
+
+
+def twist(rng: random.Random, doc: Dict[str, Any], in_list_ok: bool = False) -> Optional[Dict[str, Any]]:
+    """the document with ONE typed attribute moved within its family: another valueType / lexical form / zone whose Python value
+    compares equal to the stored one (None if the document has no such attribute)"""
+    doc = copy.deepcopy(doc)
+    def frozen(d, inside=False):     # typed values of a list's children are bound to the list's valueTypeListElement
+        out = []
+        if isinstance(d, dict):
+            if inside and "valueType" in d:
+                out.append(id(d))
+            for k, v in d.items():
+                out += frozen(v, inside or (d.get("modelType") == "SubmodelElementList" and k == "value"))
+        elif isinstance(d, list):
+            for v in d:
+                out += frozen(v, inside)
+        return out
+    fr = set(frozen(doc))
+    sites = [s for s in typed_sites(doc) if id(s) not in fr]
+    rng.shuffle(sites)
+    for s in sites:
+        vt = s["valueType"]
+        if s.get("modelType") == "Range":
+            fams = {_FAMILY_OF.get((vt, s[k])) for k in ("min", "max") if k in s}
+            if len(fams) != 1 or None in fams:
+                continue
+            fam = fams.pop()
+            cur = (vt, s.get("min"), s.get("max"))
+            for _ in range(20):
+                nvt, lo, hi = typed_range(rng, fam)
+                new = (nvt, lo if "min" in s else None, hi if "max" in s else None)
+                if new != cur:
+                    s["valueType"] = nvt
+                    if "min" in s:
+                        s["min"] = lo
+                    if "max" in s:
+                        s["max"] = hi
+                    return doc
+            continue
+        if "value" not in s or (vt, s["value"]) not in _FAMILY_OF:
+            continue
+        others = [tv for tv in EQ_FAMILIES[_FAMILY_OF[(vt, s["value"])]] if tv != (vt, s["value"])]
+        if others:
+            s["valueType"], s["value"] = rng.choice(others)
+            return doc
+    return None
+
+
+def vary(rng: random.Random, doc: Dict[str, Any]) -> Dict[str, Any]:
+    """a replacement for a stored document (same class, same id / idShort): the document with a typed attribute moved within its
+    family, with a list replaced by a list of another type (at any depth), with a member changed, or a fresh document"""
+    r = rng.random()
+    ids, cls = doc.get("idShort"), doc["modelType"]
+    if r < 0.45:
+        t = twist(rng, doc)
+        if t is not None:
+            return t
+    if r < 0.75:
+        new = copy.deepcopy(doc)
+        lists = []
+        def find(d):
+            if isinstance(d, dict):
+                if d.get("modelType") == "SubmodelElementList":
+                    lists.append(d)
+                else:
+                    for v in d.values():
+                        find(v)
+            elif isinstance(d, list):
+                for v in d:
+                    find(v)
+        find(new)
+        if lists:
+            l = rng.choice(lists)
+            fresh = doc_list(rng, l.get("idShort"), other_than=l)
+            l.clear()
+            l.update(fresh)
+            return new
+    if r < 0.85:
+        new = copy.deepcopy(doc)
+        new["description"] = [{"language": "en", "text": f"t{rng.randrange(4, 9)}"}]
+        return new
+    if cls == "Submodel":
+        new = doc_sm(rng, doc["id"])
+        # mostly the stored classes under the stored idShorts (updated in place)
+        old = {c.get("idShort"): c for c in doc.get("submodelElements", [])}
+        new["submodelElements"] = [doc_elem(rng, c["idShort"], 2, old[c["idShort"]]["modelType"]) if c.get("idShort") in old and rng.random() < 0.7 else c
+                                   for c in new["submodelElements"]]
+        return new
+    return doc_elem(rng, ids, 2, cls)
+
+
+# -- the regular correspondence between the JSON and the XML form of a document
+
+_PLAIN_ITEMS = {"keys": "key", "description": "langStringTextType", "displayName": "langStringNameType", "qualifiers": "qualifier", "extensions": "extension",
+                "supplementalSemanticIds": "reference", "refersTo": "reference", "isCaseOf": "reference", "submodels": "reference",
+                "specificAssetIds": "specificAssetId", "inputVariables": "operationVariable", "outputVariables": "operationVariable",
+                "inoutputVariables": "operationVariable"}
+_POLY_LISTS = {"submodelElements", "statements", "annotations"}
+_AAS_NS = "https://admin-shell.io/aas/3/0"
+
+
+def xml_of_doc(doc: Dict[str, Any]) -> bytes:
+    """the XML form of a document that has a modelType: members become child elements of the same name, the modelType becomes the tag,
+    list items without a modelType are wrapped in the element their list prescribes"""
+    from lxml import etree
+    NS = "{" + _AAS_NS + "}"
+    def obj(d, root=False):
+        tag = d["modelType"][0].lower() + d["modelType"][1:]
+        e = etree.Element(NS + tag, nsmap={"aas": _AAS_NS}) if root else etree.Element(NS + tag)
+        fields(e, d)
+        return e
+    def fields(parent, d):
+        for k, v in d.items():
+            if k != "modelType":
+                fill(etree.SubElement(parent, NS + k), k, v)
+    def fill(c, k, v):
+        if isinstance(v, bool):
+            c.text = "true" if v else "false"
+        elif isinstance(v, str):
+            c.text = v
+        elif isinstance(v, dict):
+            if "modelType" in v:
+                c.append(obj(v))
+            else:
+                fields(c, v)
+        elif isinstance(v, list):
+            for x in v:
+                if isinstance(x, dict) and "modelType" in x:
+                    c.append(obj(x))
+                else:
+                    fields(etree.SubElement(c, NS + (_PLAIN_ITEMS.get(k) or "langStringTextType")), x)
+    return etree.tostring(obj(doc, True))
+
+
+def doc_of_xml(e, model_type: Optional[str] = None) -> Dict[str, Any]:
+    """an XML element whose children are the members of an object -> the document (the inverse of `xml_of_doc`)"""
+    d: Dict[str, Any] = {}
+    if model_type:
+        d["modelType"] = model_type[0].upper() + model_type[1:]
+    for c in e:
+        k = _ln(c)
+        kids = list(c)
+        tags = {_ln(x) for x in kids}
+        if k in _POLY_LISTS:
+            d[k] = [doc_of_xml(x, _ln(x)) for x in kids]
+        elif k in _PLAIN_ITEMS:
+            d[k] = [doc_of_xml(x) for x in kids]
+        elif k == "value" and kids:
+            if _ln(e) == "operationVariable":
+                d[k] = doc_of_xml(kids[0], _ln(kids[0]))
+            elif tags <= {"langStringTextType"}:
+                d[k] = [doc_of_xml(x) for x in kids]
+            elif tags <= {"type", "keys", "referredSemanticId"}:
+                d[k] = doc_of_xml(c)
+            else:
+                d[k] = [doc_of_xml(x, _ln(x)) for x in kids]
+        elif kids:
+            d[k] = doc_of_xml(c)
+        else:
+            d[k] = c.text or ""
+    return d
+
+
+def canon_doc(d: Any, top: bool = True) -> Any:
+    """normal form of a document for comparison: booleans as in XML, absent = empty = default (kind, orderRelevant), members whose
+    order carries no meaning (children addressed by idShort, qualifiers by type, extensions by name, language strings) sorted"""
+    if isinstance(d, bool):
+        return "true" if d else "false"
+    if isinstance(d, list):
+        items = [canon_doc(x, False) for x in d]
+        for key in ("idShort", "language", "name"):
+            if items and all(isinstance(x, dict) and key in x for x in items):
+                items.sort(key=lambda x: json.dumps(x, sort_keys=True))
+                return items
+        if items and all(isinstance(x, dict) and "type" in x and "valueType" in x for x in items):
+            items.sort(key=lambda x: json.dumps(x, sort_keys=True))
+        return items
+    if isinstance(d, dict):
+        out = {}
+        for k, v in d.items():
+            v = canon_doc(v, False)
+            if v is None or v == [] or v == {}:
+                continue
+            out[k] = v
+        if out.get("kind") in ("Instance", "ConceptQualifier"):
+            del out["kind"]
+        if out.get("orderRelevant") == "true":
+            del out["orderRelevant"]
+        return out
+    return d
+
+
+def same_doc(got: Any, want: Any, typed_root: bool = True) -> bool:
+    """`typed_root` False: the payload does not say its class (a single object in an XML response)"""
+    g, w = canon_doc(got), canon_doc(want)
+    if not typed_root and isinstance(w, dict) and isinstance(g, dict):
+        w = {k: v for k, v in w.items() if k != "modelType"}
+        g = {k: v for k, v in g.items() if k != "modelType"}
+    return json.dumps(g, sort_keys=True) == json.dumps(w, sort_keys=True)
+
+
+def doc_children(doc: Dict[str, Any]) -> List[Dict[str, Any]]:
+    """the elements addressed by idShort directly below a document"""
+    m = CHILD_MEMBER.get(doc.get("modelType"))
+    kids = list(doc.get(m, [])) if m else []
+    if doc.get("modelType") == "Operation":
+        for k in ("inputVariables", "outputVariables", "inoutputVariables"):
+            kids += [v["value"] for v in doc.get(k, [])]
+    return kids
+
+
+def doc_paths(doc: Dict[str, Any], prefix=()) -> List[Tuple[List[str], Dict[str, Any]]]:
+    out = []
+    for c in doc_children(doc):
+        out.append((list(prefix) + [c["idShort"]], c))
+        out += doc_paths(c, tuple(prefix) + (c["idShort"],))
+    return out
+
+
+def doc_find(doc: Dict[str, Any], path: List[str]) -> Optional[Dict[str, Any]]:
+    cur = doc
+    for seg in path:
+        cur = next((c for c in doc_children(cur) if c.get("idShort") == seg), None)
+        if cur is None:
+            return None
+    return cur
+
+
+def moves_between_sets(old: Dict[str, Any], new: Dict[str, Any]) -> bool:
+    """does the replacement move an idShort from one of the variable sets of a stored Operation into another one (at any depth)?  That is
+    the recorded finding http:crash:PUT:update_from:idshort-moves-between-sets of C11 (AASd-022 out of update_from): not sent here."""
+    if old.get("modelType") != new.get("modelType"):
+        return False        # another class: replaced as a whole
+    if old.get("modelType") == "Operation":
+        where = lambda d: {v["value"].get("idShort"): k for k in ("inputVariables", "outputVariables", "inoutputVariables") for v in d.get(k, [])}
+        wo, wn = where(old), where(new)
+        if any(n in wo and wo[n] != k for n, k in wn.items()):
+            return True
+    oc = {c.get("idShort"): c for c in doc_children(old)}
+    return any(c.get("idShort") in oc and moves_between_sets(oc[c.get("idShort")], c) for c in doc_children(new))
+
+
+def doc_apply(ref: Dict[str, Dict[str, Any]], op: List[Any]) -> Optional[int]:
+    """The reference repository: a map from identifier to document.  Applies the operation and returns the status a map answers
+    with (201 / 204 / 409), or None if the operation does not apply to this state (its target does not exist, the replacement is of
+    another class: the plain repository's ground) - such an operation is not sent."""
+    k = op[0]
+    if k == "d-create":
+        d = op[1]
+        if d["id"] in ref:
+            return 409
+        ref[d["id"]] = copy.deepcopy(d)
+        return 201
+    i = op[1]
+    sm = ref.get(i)
+    if sm is None:
+        return None
+    if k == "d-replace":
+        if op[2]["id"] != i or moves_between_sets(sm, op[2]):
+            return None
+        ref[i] = copy.deepcopy(op[2])
+        return 204
+    if k == "d-delete":
+        del ref[i]
+        return 204
+    path = op[2]
+    target = doc_find(sm, path)
+    if target is None:
+        return None
+    if k == "d-elem-create":
+        e = op[3]
+        m = CHILD_MEMBER.get(target["modelType"])
+        if m is None or e.get("idShort") is None or (target["modelType"] == "AnnotatedRelationshipElement" and e["modelType"] not in DATA_CLASSES):
+            return None
+        if any(c.get("idShort") == e["idShort"] for c in doc_children(target)):
+            return 409
+        target.setdefault(m, []).append(copy.deepcopy(e))
+        return 201
+    if not path:
+        return None
+    parent = doc_find(sm, path[:-1])
+    m = CHILD_MEMBER.get(parent["modelType"])
+    if k == "d-elem-replace":
+        e = op[3]
+        if e["modelType"] != target["modelType"] or e.get("idShort") != path[-1] or moves_between_sets(target, e):
+            return None
+        target.clear()
+        target.update(copy.deepcopy(e))
+        return 204
+    if k == "d-elem-delete":
+        if m is None or not any(c is target for c in parent.get(m, [])):
+            return None
+        parent[m] = [c for c in parent[m] if c is not target]
+        return 204
+    raise ValueError(op)
+
+
+def gen_doc_ops(rng: random.Random, n: int) -> List[List[Any]]:
+    """operations on documents that apply to the state they meet (the generator runs the reference repository alongside)"""
+    ref: Dict[str, Dict[str, Any]] = {}
+    ops: List[List[Any]] = []
+    def push(op):
+        if doc_apply(ref, copy.deepcopy(op)) is not None:
+            ops.append(op)
+    tries = 0
+    while len(ops) < n and tries < 20 * n:
+        tries += 1
+        r = rng.random()
+        if not ref or r < 0.1:
+            free = [x for x in IDS if x not in ref]
+            push(["d-create", doc_sm(rng, rng.choice(free) if free and rng.random() < 0.9 else rng.choice(IDS))])
+            continue
+        i = rng.choice(sorted(ref))
+        sm = ref[i]
+        paths = doc_paths(sm)
+        if r < 0.3:
+            push(["d-replace", i, vary(rng, sm)])
+        elif r < 0.33:
+            push(["d-delete", i])
+        elif r < 0.5:
+            parents = [([], sm)] + [(p, e) for p, e in paths if e["modelType"] in CHILD_MEMBER]
+            p, par = rng.choice(parents)
+            ids = rng.choice(IDSHORTS)
+            e = doc_elem(rng, ids, 1, rng.choice(DATA_CLASSES) if par["modelType"] == "AnnotatedRelationshipElement" else None)
+            push(["d-elem-create", i, p, e])
+        elif r < 0.92 and paths:
+            # a replacement: preferably of elements that hold typed values / lists (below them or themselves)
+            rich = [(p, e) for p, e in paths if typed_sites(e) or "SubmodelElementList" in json.dumps(e)]
+            p, e = rng.choice(rich if rich and rng.random() < 0.7 else paths)
+            push(["d-elem-replace", i, p, vary(rng, e)])
+        elif paths:
+            push(["d-elem-delete", i, rng.choice(paths)[0]])
+    return ops
+
+
+class DocRun:
+    """Drives one server and the reference repository of documents; after every accepted write everything the written submodel
+    offers is read back in JSON and in XML and compared with the document the reference repository holds."""
+
+    def __init__(self, file_backed: bool, rng: random.Random):
+        self.srv = Server(file_backed)
+        self.ref: Dict[str, Dict[str, Any]] = {}
+        self.rng = rng
+        self.fb = file_backed
+        self.trace: List[Dict[str, Any]] = []
+        self.stats: Dict[str, int] = {}
+
+    def close(self):
+        self.srv.close()
+
+    def send(self, R):
+        self.trace.append(R)
+        return self.srv.send(R, raw=True)
+
+    def fail(self, sig, what, observed=None, required=None) -> C.Failing:
+        return C.Failing(sig, what, {"mode": "file" if self.fb else "dict", "reqs": list(self.trace)}, observed, required)
+
+    def seg(self, i):
+        return b64(i, self.rng.random() < 0.7)
+
+    def body(self, doc):
+        if self.rng.random() < 0.5:
+            return self.rng.choice([0, 0, 4]), json.dumps(doc).encode("utf-8")
+        return self.rng.choice([1, 2, 3]), xml_of_doc(doc)
+
+    @staticmethod
+    def payload(out) -> Tuple[str, Any]:
+        """("item" | "page" | "result" | "unparsable", documents)"""
+        from lxml import etree
+        ct, data = (out[3] or "").split(";")[0].strip(), out[4]
+        try:
+            if ct == "application/json":
+                j = json.loads(data)
+                if isinstance(j, dict) and "paging_metadata" in j:
+                    return "page", j["result"]
+                if isinstance(j, dict) and set(j) == {"success", "messages"}:
+                    return "result", j
+                return "item", j
+            if ct in ("application/xml", "text/xml"):
+                root = etree.fromstring(data)
+                names = [_ln(c) for c in root]
+                if root.get("cursor") is not None:
+                    return "page", [doc_of_xml(c, _ln(c)) for c in root]
+                if "success" in names and "messages" in names:
+                    return "result", None
+                return "item", doc_of_xml(root)
+        except Exception as e:
+            return "unparsable", f"{type(e).__name__}: {data[:200]!r}"
+        return "other", ct
+
+    def read(self, level: str, segs: List[str], want: Any, paged: bool, where: str) -> Optional[C.Failing]:
+        """the resource in JSON and in XML: both must be the document(s) of the reference repository"""
+        for fmt, acc in (("json", self.rng.choice([0, 1, 4])), ("xml", self.rng.choice([2, 3]))):
+            out = self.send(mk_req("GET", segs, acc, limit="100" if paged else None))
+            if out[0] != "raw":
+                return self.fail(f"http:doc:{level}:{fmt}:crash", f"GET {where} ({fmt}) raised {out[1]}", out)
+            if out[1] != 200:
+                return self.fail(f"http:doc:{level}:{fmt}:status", f"GET {where} ({fmt}) of a stored resource answered {out[1]}", out[1], 200)
+            kind, got = self.payload(out)
+            if paged:
+                ok = kind == "page" and len(got) == len(want) and sorted(json.dumps(canon_doc(x), sort_keys=True) for x in got) == \
+                    sorted(json.dumps(canon_doc(x), sort_keys=True) for x in want)
+            else:
+                ok = kind == "item" and same_doc(got, want, typed_root=fmt == "json")
+            if not ok:
+                return self.fail(f"http:doc:{level}:{fmt}:payload", f"GET {where} as {fmt.upper()} is not the document the history put there", canon_doc(got), canon_doc(want))
+        return None
+
+    def verify(self, i: Optional[str]) -> Optional[C.Failing]:
+        sm = self.ref.get(i) if i is not None else None
+        if sm is not None:
+            for path, e in doc_paths(sm):
+                f = self.read("elem", ["submodels", self.seg(i), "submodel-elements", ".".join(path)], e, False, f"element {'.'.join(path)} ({e['modelType']}) of {i!r}")
+                if f:
+                    return f
+            f = self.read("elem-listing", ["submodels", self.seg(i), "submodel-elements"], sm.get("submodelElements", []), True, f"the element listing of {i!r}") \
+                or self.read("sm", ["submodels", self.seg(i)], sm, False, f"submodel {i!r}")
+            if f:
+                return f
+        return self.read("sm-listing", ["submodels"], list(self.ref.values()), True, "/submodels")
+
+    def op(self, op: List[Any], verify: bool = True) -> Optional[C.Failing]:
+        k = op[0]
+        want = doc_apply(self.ref, copy.deepcopy(op))
+        if want is None:
+            return None
+        acc = self.rng.choice([0, 1, 2, 3, 4])
+        if k == "d-create":
+            ct, by = self.body(op[1])
+            R = mk_req("POST", ["submodels"], acc, ct, "raw", by)
+            i = op[1]["id"]
+        else:
+            i = op[1]
+            base = ["submodels", self.seg(i)]
+            if k == "d-replace":
+                ct, by = self.body(op[2])
+                R = mk_req("PUT", base, acc, ct, "raw", by)
+            elif k == "d-delete":
+                R = mk_req("DELETE", base, acc)
+            else:
+                segs = base + ["submodel-elements"] + ([".".join(op[2])] if op[2] else [])
+                if k == "d-elem-delete":
+                    R = mk_req("DELETE", segs, acc)
+                else:
+                    ct, by = self.body(op[3])
+                    R = mk_req("POST" if k == "d-elem-create" else "PUT", segs, acc, ct, "raw", by)
+        out = self.send(R)
+        key = f"oracle:{k}:{out[1] if out[0] == 'raw' else 'crash'}"
+        self.stats[key] = self.stats.get(key, 0) + 1
+        if out[0] != "raw":
+            return self.fail(f"http:{k}:crash", f"{k} raised {out[1]}", out)
+        if out[1] != want:
+            return self.fail(f"http:{k}:not-{want}", f"{k} answered {out[1]}", [out[1], out[4][:300].decode("utf-8", "replace")], want)
+        if want == 201:
+            loc = ["sm", i] if k == "d-create" else ["elem", i, op[2] + [op[3]["idShort"]]]
+            if out[2] != loc:
+                return self.fail(f"http:{k}:location", f"Location {out[2]} does not name the created resource", out[2], loc)
+            # the created resource is the 201 body
+            kind, got = self.payload(out)
+            created = op[1] if k == "d-create" else op[3]
+            if kind != "item" or not same_doc(got, created, typed_root=(out[3] or "").startswith("application/json")):
+                return self.fail(f"http:{k}:body", f"the body of the 201 answer to {k} is not the created document", canon_doc(got), canon_doc(created))
+        return self.verify(i) if verify and want != 409 else None
+
+
+def run_docs(ops: List[List[Any]], file_backed: bool, seed: Any, verify: Any = True, stats: Optional[Dict[str, int]] = None) -> Optional[C.Failing]:
+    run = DocRun(file_backed, random.Random(f"doc:{seed}"))
+    try:
+        for k, op in enumerate(ops):
+            f = run.op(copy.deepcopy(op), verify is True or k == len(ops) - 1 or op[0] in ("d-replace", "d-elem-replace")
+                       or random.Random(f"dv:{seed}:{k}").random() < 0.4)
+            if f is not None:
+                f.case = {"kind": "doc", "mode": "file" if file_backed else "dict", "ops": ops[: k + 1], "seed": str(seed)}
+                return f
+        return None
+    finally:
+        if stats is not None:
+            for k, v in run.stats.items():
+                stats[k] = stats.get(k, 0) + v
+        run.close()
 
 
 def search(ctx: C.Ctx, disagreements, broken) -> List[C.Failing]:
@@ -1688,6 +2440,8 @@ def search(ctx: C.Ctx, disagreements, broken) -> List[C.Failing]:
 def replay(case) -> Optional[C.Failing]:
     if case.get("kind") == "semantic":
         return run_semantic(case["ops"], case.get("mode") == "file", case.get("seed", 0), case.get("sweep", True))
+    if case.get("kind") == "doc":
+        return run_docs(case["ops"], case.get("mode") == "file", case.get("seed", 0))
     from props import c11
     return c11.check_history(case["reqs"], case.get("mode") == "file")
 
